@@ -1482,15 +1482,22 @@ class RunGen:
         # and -- every second character being multi-byte -- a multi-byte character
         # across every fixed byte offset for one of the shifts
         small = sorted(set(self.special) | set(ext[:12])) if isinstance(ext, list) else ext
-        dense = ("\u201c1 U.S. 1\u201d; \u00a7 2\u2014id. at 3\u00e9 2 F.2d 4 \u00b6 5; supra \u00e9\u00e8\u00ea "
+        dense = ("\u201c1 U.S. 1\u201d; \u00a7 2\u2014id. at 3\u00e9 2 F.2d 4 \u00b6 5; supra \u00e9\u00e8\u00ea 5 Cal. 3d 7, 1 Wash. 2d 3; 3 N.Y. 2d 4 "
                  + (texts[0][:120] if texts else "") + " \u00a7\u00a7 7\u20138\n")
         from eyecite.tokenizers import EXTRACTORS as _ALL
 
         hit = [i for i, e in enumerate(_ALL) if re.search(e.regex, dense, e.flags)]
         small = sorted(set(self.special) | set(hit[:40]))
         for size in (70_000, 140_000, 400_000, 1_300_000):
-            for shift in ((0, 1, 2) if size < 1_000_000 else (0,)):
-                doc = ("x" * shift + dense * (size // len(dense.encode("utf8")) + 1))
+            for shift in ((0, 1, 2) if size < 1_000_000 else (0, 1)):
+                # not periodic: 17 paragraph variants of different lengths, so that
+                # fixed byte offsets and fixed hit counts (buffers, batches, windows)
+                # fall at ever different places of a paragraph
+                paras = [dense[:-1] + " " + " ".join(texts[(i + j) % len(texts)][: 40 + 9 * i] for j in range(1 + i % 3))
+                         + f"; see {i + 1} U.S. {i + 2}, {i + 3} (19{10 + i}); id. at {i}; 2 F.2d at {i + 4}\n"
+                         for i in range(17)] if texts else [dense]
+                reps = size // sum(len(q.encode("utf8")) for q in paras) + 1
+                doc = "x" * shift + "".join(paras[(i * (7 + shift)) % len(paras)] for i in range(reps * len(paras)))
                 doc = doc.encode("utf8")[:size].decode("utf8", "ignore")
                 jobs.append({"seed": seeds.h64(root, "grid-long", size, shift), "kind": "grid",
                              "cell": f"long-{size}-shift{shift}", "ext": small, "chunk": 65536,
